@@ -742,6 +742,11 @@ class _PeerTcpConnection(_SocketWrapper):
                                            .format(type(message).__name__))
 
             # Process handshake message.
+            # The peer context name must be a string. In particular it can not be None,
+            # because that would leave this connection waiting for a (second) handshake.
+            if not isinstance(message.source_address.context_id, str):
+                raise QMI_RuntimeException("Invalid context name {!r} in handshake message"
+                                           .format(message.source_address.context_id))
             self.peer_context_name = message.source_address.context_id
             self.peer_context_version = message.version
             if message.is_server_handshake and self._is_incoming:
